@@ -91,7 +91,7 @@ def cmd_check(prop: str, tier: str) -> int:
     t0 = time.time()
     repo = os.environ.get("VERIF_REPO", "/repo")
     seed = int(os.environ.get("VERIF_SEED", "0") or 0)
-    evid_path = os.path.join(VERIF_DIR, "evidence", f"{prop}.json")
+    evid_path = os.path.join(os.environ.get("VERIF_EVIDENCE_DIR") or os.path.join(VERIF_DIR, "evidence"), f"{prop}.json")
     os.makedirs(os.path.dirname(evid_path), exist_ok=True)
     mod = rule_module(prop)
     status = 0
